@@ -213,6 +213,43 @@ def table_counts(frame, ego_q, n, m):
                known={"C19-matched-failing-ground-truth-tallied-twice": any(g in fn_g for g in fp_g)})
 
 
+YAWS = {"back_left": (1, 0, 0, 20), "back_right": (1, 0, 0, -20), "ahead": (8, 0, 0, 1), "right": (2, 0, 0, -1),
+        "left_back": (1, 0, 0, 3)}
+
+
+def _yaw_of(q):
+    return 2 * math.atan2(q[3], q[0])
+
+
+def table_yaw_error(frame, ego_q):
+    """Yaw errors of paired rows (auxiliary: pandas layer, evaluated on the real code at the witness of every path):
+    ground-truth minus estimate yaw wrapped to [-pi, pi], for headings on both sides of the +-pi seam, with the
+    mean / RMS / max summaries."""
+    pose = S.Pose(frame, ego_q, tag="ego0")
+    gy = choose("g0_yaw", sorted(YAWS))
+    ey = choose("e0_yaw", sorted(YAWS))
+    ex = real("e0_ego_x", 5, 60)
+    ests = [S.SObj("e0", pose, CAR, ex, 0.0, conf=0.9, yaw_q=YAWS[ey])]
+    gts = [S.SObj("g0", pose, CAR, ex + real("offset", -0.5, 0.5), 0.0, is_gt=True, yaw_q=YAWS[gy])]
+    crit = ("xy", [120.0, 120.0], [50.0, 50.0])
+    fr, _ = S.run_frame(pose, ests, gts, TARGETS, "default", crit, [2.0, 2.0])
+    parts = {"one_pair": len(fr.object_results) == 1 and fr.object_results[0].ground_truth_object is not None}
+    obs = {"pair": parts["one_pair"]}
+    if not symx.is_symbolic() and parts["one_pair"]:
+        an = _analyzer(1)
+        an.add([fr])
+        err = an.calculate_error("yaw")
+        d = _yaw_of(YAWS[gy]) - _yaw_of(YAWS[ey])
+        want = math.atan2(math.sin(d), math.cos(d))
+        parts["aux_yaw_error_is_wrapped_difference"] = len(err) == 1 and abs(float(err[0]) - want) < 1e-6 and \
+            -math.pi - 1e-9 <= float(err[0]) <= math.pi + 1e-9
+        summ = an.summarize_error()
+        row = summ.loc[("ALL", "yaw")]
+        parts["aux_yaw_summaries"] = abs(float(row["average"]) - want) < 1e-6 and abs(float(row["rms"]) - abs(want)) < 1e-6 \
+            and abs(float(row["max"]) - abs(want)) < 1e-6
+    return Out(parts=parts, obs=obs)
+
+
 def obligations(pid, tier):
     quick = tier == "quick"
     frames = [("base_link", "id"), ("map", "yaw_3_4_5")] + ([] if quick else [("map", "yaw_neg")])
@@ -233,6 +270,9 @@ def obligations(pid, tier):
         Obligation("table_rows_via_add", table_rows_via_add, cases=[dict(ego_q="yaw_3_4_5", ego_q2="yaw_neg")] + (
             [] if quick else [dict(ego_q="yaw90", ego_q2="id")]), extras=S.frame_extras,
                    desc="auxiliary: rows written by add() for same-named frames with different ego poses"),
+        Obligation("table_yaw_error", table_yaw_error, cases=[dict(frame=f, ego_q=q) for f, q in frames], extras=S.frame_extras,
+                   desc="auxiliary: yaw error of a paired row = wrapped ground-truth-minus-estimate yaw for all 25 heading "
+                        "pairs incl. both directions across the +-pi seam; mean / RMS / max summaries"),
         Obligation("table_counts", table_counts, cases=cnt, extras=S.frame_extras,
                    desc="auxiliary: the pandas table built by add() is compared with the pass/fail lists on the real code "
                         "at the solver-generated witness of every explored path"),
